@@ -53,3 +53,14 @@ Proof.
   - destruct b; discriminate.
   - intro H. split; [reflexivity|]. apply v_dynamic_alias_zero in H. apply v_dynamic63_zero_sound in H. exact H.
 Qed.
+
+(* the generated static obligation, in the form in which it is evaluated: head 0 of frame_ret IS frame_ok = true,
+   and the tail is the alias set of r in the final abstract map *)
+Lemma frame_ret_ok sk ps r l :
+  frame_ret sk ps r = 0 :: l ->
+  frame_ok sk ps = true /\ exists a, analyze sk (init_amap ps) = Some a /\ l = map Zpos (lookup a r).
+Proof.
+  unfold frame_ret, frame_ok, analyze.
+  destruct (analyze_r default_fuel sk (init_amap ps)) as [a|x s|]; intro H; try discriminate.
+  inversion H. split; [reflexivity|]. exists a. split; reflexivity.
+Qed.
